@@ -67,7 +67,13 @@ def main(argv=None):
     if args.replay:
         with open(args.replay) as f:
             rec = json.load(f)
-        st, res = core.run_isolated(_replay_worker, (modname, rec['case']), timeout=600)
+        if rec.get('_task'):
+            # history-dependent violation: re-run the task (block of cases) it was observed in, from a cold start
+            st, res = core.run_isolated(core.replay_task, (rec['_task'], rec['case']), timeout=3000)
+            if st == 'ok':
+                res = dict(res, verdict='violation') if res else {'verdict': 'ok', 'detail': 'case not reported by the task'}
+        else:
+            st, res = core.run_isolated(_replay_worker, (modname, rec['case']), timeout=600)
         if st != 'ok':
             print('REPLAY harness problem: %s %s' % (st, res))
             return 2
@@ -114,9 +120,26 @@ def main(argv=None):
             continue
         bad = a['verdict'] == 'violation' or (a['verdict'] == 'known' and not findings.is_open(a.get('fid')))
         if not bad:
-            rep.error('candidate violation did not reproduce in isolation (order-dependent harness state?): %s'
-                      % json.dumps(cand)[:600])
+            # The case alone is fine.  If re-running the task it was observed in (same cases in the same order, cold
+            # start, fresh process) reports it again -- twice -- the code under test answers this case differently
+            # depending on what it processed before: a violation with the task as its replay.  Otherwise the
+            # observation came from the harness: error, never an alarm.
+            t1 = t2 = None
+            if cand.get('_task'):
+                t1 = core.run_isolated(core.replay_task, (cand['_task'], cand['case']), timeout=3000)
+                if t1[0] == 'ok' and t1[1]:
+                    t2 = core.run_isolated(core.replay_task, (cand['_task'], cand['case']), timeout=3000)
+            if t2 and t2[0] == 'ok' and t2[1] and core.jsonable(t1[1]) == core.jsonable(t2[1]):
+                cand = dict(t1[1], _task=cand['_task'])
+                cand['detail'] = ('HISTORY-DEPENDENT: correct when processed alone in a fresh interpreter, wrong after the '
+                                  'earlier cases of its task (%s %s) | %s' % (cand['_task']['fn'], cand['_task']['arg_repr'][:160],
+                                                                             cand.get('detail') or ''))
+                confirmed.append(cand)
+                continue
+            rep.error('candidate violation did not reproduce in isolation nor by re-running its task: %s'
+                      % json.dumps({k: v for k, v in cand.items() if k != '_task'})[:600])
             continue
+        cand.pop('_task', None)
         cand = dict(cand)
         cand['expected'] = core.jsonable(a.get('expected'))
         cand['observed'] = core.jsonable(a.get('observed'))
